@@ -218,6 +218,10 @@ def build(history: list[tuple[str, ...]], spacing: float, hset: int, fails: int,
         handlers = [dict(id='c1', on='create', script=['ok']), dict(id='c2', on='create', script=f + ['ok']),
                     dict(id='u1', on='update', script=f + ['ok']), dict(id='u2', on='update', script=['ok']),
                     dict(id='d1', on='delete', script=['ok'])]
+    if hset == 7:   # handler ids long enough for kopf to keep every record under TWO differently named annotations (V1 and V2 names coincide for short ids)
+        L = '_of_the_operator_that_reconciles_the_children_of_the_object'
+        handlers = [dict(id='c1' + L, on='create', script=f + ['ok']), dict(id='u1' + L, on='update', script=f + ['ok']),
+                    dict(id='u2' + L + '/spec.x', on='update', script=['ok']), dict(id='d1' + L, on='delete', script=f + ['ok'])]
     if hset == 6:   # two deletion handlers (one per cycle under `asap`), the second asking for an immediate retry first
         handlers = [dict(id='c1', on='create', script=['ok']), dict(id='u1', on='update', script=['ok']),
                     dict(id='d1', on='delete', script=['ok']), dict(id='d2', on='delete', script=['temp0'] * fails + ['ok'])]
@@ -248,6 +252,9 @@ def scenarios(tier: str) -> tuple[list[C03Scenario], list[C03Scenario], list[C03
         for spacing in (20.0, 2.0, 1.0, 0.0):
             for fails in (1, 2):
                 hist.append(build(h, spacing, 5, fails, delays=False, early_user=False, time_dev=False))
+    for h in histories(2):
+        for spacing in (20.0, 0.0):
+            hist.append(build(h, spacing, 7, 1, delays=False, early_user=False, time_dev=False))
     for h in histories(2):
         if any(a[0] == 'delete' for a in h):
             for spacing in (20.0, 0.0):
